@@ -383,7 +383,7 @@ var c01Strategies = []struct {
 }
 
 func runC01(c *Ctx) {
-	c.Res.Rule = "structured valid profiles from 6 strategies (plain, sparse/huge ids, weird strings, extreme ints, shapes, all-default elements), each also as a 2-step history (serialize, seeded in-memory edit, serialize again) + mutated accepted byte strings; + driver level: the same 6 strategies through the real pprof binary (`-proto -output=f in`, plain / with options that must not change a saved profile / -divide_by=d, and interactive sessions with `proto >f` between other commands; one process per case) and through driver.PProf in-process (interactive sessions via the profile copier, web requests then GET /download), output re-read and compared by value with normalize(input); non-trivial = has ≥1 sample with ≥1 location having ≥1 line (profile and driver streams) or accepted by the parser with ≥1 sample (byte stream); distinct by canonical text (+ mode/flags/script for driver cases)"
+	c.Res.Rule = "structured valid profiles from 6 strategies (plain, sparse/huge ids, weird strings, extreme ints, shapes, all-default elements), each also as a 2-step history (serialize, seeded in-memory edit, serialize again) + mutated accepted byte strings; + driver level: the same 6 strategies through the real pprof binary (`-proto -output=f in`, plain / with options that must not change a saved profile / -divide_by=d, and interactive sessions with `proto >f` between other commands; one process per case) and through driver.PProf in-process (interactive sessions via the profile copier, web requests then GET /download), output re-read and compared by value with normalize(input); + write-to-file histories through the driver's default writer (one target path written several times across pprof runs, within an interactive session, and within an in-process driver.PProf session: -proto/-raw/-top/-traces, two inputs of different size, focus expressions; target absent, empty, short/longer garbage, longer valid profile, longer read-only file, directory; after every proto write the file is re-read and compared with a fresh write of the same command and with normalize(input)); non-trivial = has ≥1 sample with ≥1 location having ≥1 line (profile and driver streams) or accepted by the parser with ≥1 sample (byte stream) or a proto write over LONGER previous content was checked (file histories); distinct by canonical text (+ mode/flags/script for driver cases)"
 	if c.Replay != "" {
 		var cs c01Case
 		if err := c.LoadReplay(&cs); err != nil {
